@@ -416,7 +416,8 @@ var externalWrites = map[string]map[int]bool{
 	"golang.org/x/text/collate.Collator.Key": {0: true}, "golang.org/x/text/collate.Collator.KeyFromString": {0: true},
 	"golang.org/x/text/collate.Buffer.Reset": {-1: true},
 	"builtin.copy":                           {0: true}, "builtin.clear": {0: true}, "builtin.append": {0: true},
-	"slices.Reverse": {0: true},
+	"slices.Reverse":                         {0: true},
+	"encoding/binary.bigEndian.AppendUint16": {0: true}, "encoding/binary.bigEndian.AppendUint32": {0: true}, "encoding/binary.bigEndian.AppendUint64": {0: true},
 }
 
 // writesThrough: parameters (index; -1 receiver) of a library function through which it may
